@@ -11,7 +11,7 @@
    Outside the theorems: that each system call returns, OS scheduler fairness,
    and the crossbeam / thread-pool primitives themselves. *)
 From XcpModel Require Import Base Sparse ConcBlock ConcFile ConcFault CopyLoop Uspace.
-From XcpProofs Require Import ConcBlockProofs ConcFileProofs ConcFaultProofs CopyLoopProofs UspaceProofs ExtractedOk.
+From XcpProofs Require Import ConcBlockProofs ConcFileProofs ConcFaultProofs CopyLoopProofs UspaceProofs XLoops XConfig.
 From Coq Require Import Lia.
 From XcpModel Require Import Extracted.
 From XcpProofs Require Import PinnedSource.
@@ -164,3 +164,18 @@ Print Assumptions C07_src_copy_range_uspace_loop.
 Print Assumptions C07_src_copy_bytes_uspace_loop.
 Print Assumptions C07_src_pin_paths_parse_ignore.
 Print Assumptions C07_src_pin_parblock_queue_file_range.
+
+(* ---- further glue on this property's path, pinned token for token (an edit re-opens the obligation; the run then
+   looks for a failing input) ---- *)
+From XcpPins Require Import Pin_parfile_copy_worker Pin_parblock_dispatch_worker.
+Theorem C07_src_pin_parfile_copy_worker : pin_unchanged name_parfile_copy_worker.
+Proof. exact pin_parfile_copy_worker. Qed.
+Theorem C07_src_pin_parblock_dispatch_worker : pin_unchanged name_parblock_dispatch_worker.
+Proof. exact pin_parblock_dispatch_worker. Qed.
+(* the worker count both drivers start with is >= 1 whatever -w says (0 = one per CPU; a machine has >= 1): the
+   hypothesis `1 <= W` of the driver theorems, from the two translated definitions *)
+Theorem C07_src_workers_at_least_one : forall w ncpus, (1 <= ncpus)%N -> (1 <= x_num_workers (x_config_workers w ncpus) ncpus)%N.
+Proof. exact x_workers_at_least_one. Qed.
+Print Assumptions C07_src_workers_at_least_one.
+Print Assumptions C07_src_pin_parfile_copy_worker.
+Print Assumptions C07_src_pin_parblock_dispatch_worker.
